@@ -20,6 +20,7 @@ UNKNOWN = 99
 seq = []          # recorded events
 tasks = {}        # asyncio.Task -> tid
 ctx_names = []    # global context names of the case, index = ctx id
+shared = {}       # ctx id -> the pyscript helper function `hx` defined in that context (registered by the script itself)
 
 
 class _Ctx:
@@ -35,7 +36,13 @@ class _Ctx:
 def reset(names):
     seq.clear()
     tasks.clear()
+    shared.clear()
     ctx_names[:] = list(names)
+
+
+def share(ci, func):
+    """a script/module publishes its helper so that code of another global context can call it"""
+    shared[ci] = func
 
 
 def _tid(task):
@@ -78,17 +85,23 @@ def _now():
         return -1.0
 
 
-def mark(tid, what, arg=None, own_view=None):
-    """called from a task of the scenario (script or foreign)"""
+def who(x):
+    """canonical form of a task.name2id(name) result: tid, or None for NameError (passed as None)"""
+    return None if x is None else _tid(x)
+
+
+def mark(tid, what, arg=None, own_view=None, ci=None):
+    """called from a task of the scenario (script or foreign); ci = index of the global context whose code makes the call
+    (own_view is what task.name2id() returned to that code)"""
     if what == "begin":
         cur = asyncio.current_task()
         if cur is not None and cur not in tasks:
             tasks[cur] = tid
     seq.append({"t": tid, "w": what, "a": arg, "time": _now(), "snap": snapshot(),
-                "own": _view(own_view) if own_view is not None else None})
+                "own": _view(own_view) if own_view is not None else None, "ci": ci})
     return None
 
 
 def note(what, tid=UNKNOWN, arg=None):
     """called from the driver (fire / quiet)"""
-    seq.append({"t": tid, "w": what, "a": arg, "time": _now(), "snap": snapshot(), "own": None})
+    seq.append({"t": tid, "w": what, "a": arg, "time": _now(), "snap": snapshot(), "own": None, "ci": None})
